@@ -130,8 +130,14 @@ pub fn items_to_routs(items: Vec<Item<Val>>) -> Vec<ROut> {
 
 /// Run a program text with REF. `vars` names include the leading `$`.
 /// Returns None if the text does not parse.
+/// Did the last `run_ref` on this thread delete an entry from an object that kept >= 2 entries?
+pub fn order_sensitive_deletion() -> bool {
+    crate::refi::OBJ_DELETIONS.with(|d| d.get() > 0)
+}
+
 pub fn run_ref(code: &str, vars: &[(&str, Val)], input: Val, limit: usize, fuel: u64) -> Option<(Vec<ROut>, u64)> {
     let term = parse(code)?;
+    crate::refi::OBJ_DELETIONS.with(|d| d.set(0));
     let interp = new_interp(fuel, Vec::new());
     let env = base_env(vars);
     let items = interp.eval(&term, &env, input).take_items(limit);
